@@ -49,6 +49,13 @@ func (q queryServer) ValidatorShardIndices(goCtx context.Context, req *types.Que
 	if err != nil {
 		return nil, errorsmod.Wrap(err, "invalid validator address")
 	}
+	params, err := q.k.Params.Get(ctx)
+	if err != nil {
+		return nil, status.Error(codes.Internal, err.Error())
+	}
+	if req.ShardCount > params.MaxShardCount {
+		return nil, status.Error(codes.InvalidArgument, "shard count exceeds max shard count")
+	}
 	threshold, err := q.k.GetZkpThreshold(ctx, req.ShardCount)
 	if err != nil {
 		return nil, status.Error(codes.Internal, err.Error())
@@ -67,6 +74,13 @@ func (q queryServer) ZkpProofThreshold(goCtx context.Context, req *types.QueryZk
 	}
 	ctx := sdk.UnwrapSDKContext(goCtx)
 
+	params, err := q.k.Params.Get(ctx)
+	if err != nil {
+		return nil, status.Error(codes.Internal, err.Error())
+	}
+	if req.ShardCount > params.MaxShardCount {
+		return nil, status.Error(codes.InvalidArgument, "shard count exceeds max shard count")
+	}
 	threshold, err := q.k.GetZkpThreshold(ctx, req.ShardCount)
 	if err != nil {
 		return nil, status.Error(codes.Internal, err.Error())
